@@ -82,6 +82,11 @@ CHECKS.update({
          'The maildir backend runs on a real tmpfs tree behind SimFS, an interposer that logs every file-system call together with the connection it was made for. Seeded commands with hostile mailbox names, references and patterns are issued by one user while a second user and a foreign directory sit beside it; every path touched for the acting connection must stay inside that user\'s directory (strictly inside for remove/rmdir/rename), and the other user\'s tree, the credential files, the foreign directory and the other user\'s own view must be unchanged. The dict backend gets the black-box part with two users.',
          'Trusted: SimFS sees every call because the names os/open/NamedTemporaryFile are substituted in mailbox (stdlib) and the pymap.backend.maildir modules; anything reaching the file system by another route would be missed. Mutations outside the scratch tree are blocked and reported.'),
 })
+CHECKS.update({
+ 'C15': ('fault_enumeration', '4/C15', 'per sampled history: a crash image (copy of the real store) before every mutating file-system operation, each restarted with a fresh backend and read completely; acknowledged-effects oracle',
+         'Sampled histories of maildir commands run in the simulator on a real tmpfs tree behind the SimFS interposer, which copies the store before every mutating file-system operation of the history (open for writing, close of a written file, rename, remove, mkdir, rmdir, link, utime) - every prefix of the operation trace, exhaustive per history - plus the clean-stop image. Each image is restarted with a brand-new Login/Config/session and a fresh virtual clock and read through the real server; the recovered state must lie between the state after the acknowledged commands and the state had the in-flight command completed: acknowledged messages present with intact bytes, flags and UIDs (unless UIDVALIDITY changed), no acknowledged UID denoting another message, acknowledged mailboxes and subscriptions present, nothing half-written, control files readable; both layouts and an EXDEV configuration.',
+         'Crash = killed process (completed system calls persist); power-loss semantics are not modelled. One session per history, so one command is in flight at each crash point. Trusted: the C10 reference model for the expected states and SimFS seeing every file-system call.'),
+})
 NOT_YET = {}
 def main():
     props = [json.loads(l) for l in open(os.path.join(ROOT, 'properties.jsonl'))]
